@@ -497,3 +497,46 @@ def run(ck, prog):
     _run_pre_progress(ck, prog)
     from sa import progress
     progress.run_rule(ck, prog, set(DIMENSION_FILES))
+
+
+# ------------------------------------------------------------------ binarise writes every cell
+_run_pre_binarize = run
+
+
+def binarize_every_cell(ck, prog):
+    """'binarise ... returns the value defined by the corresponding formula': every cell becomes 1 if x > t else 0 - for every
+    threshold, negative ones included (an exact zero is above a negative threshold). No-skip rule: in binarize_mut no path
+    of the innermost loop's iteration reaches the latch without passing a cell store (a `continue` for 'already zero' cells
+    skips the comparison)."""
+    from sa import guards
+    from sa.isolation import natural_loops
+    rule, inst = "E8-by-construction", "MatrixPreprocessing::binarize_mut stores into every cell"
+    b = prog.bodies.get("linalg::stats::MatrixPreprocessing::binarize_mut")
+    if b is None:
+        ck.note(f"{inst}: binarize_mut default body not found: no instance")
+        return
+    sets = [bb for bb, t in b.calls() if t.get("f") and t["f"]["path"].endswith(("BaseMatrix::set", "_element_mut"))]
+    loops = natural_loops(b)
+    inner = [(h, nodes) for h, nodes in loops.items() if any(s in nodes for s in sets)]
+    if not sets or not inner:
+        ck.note(f"{inst}: no element loop with cell stores (iterator / whole-matrix form): no instance")
+        return
+    h, nodes = min(inner, key=lambda x: len(x[1]))
+    be = guards.back_edges(b)
+    latches = [u for (u, hh) in be if hh == h]
+    # blocks of one iteration: from the header's in-loop successor(s), cut at stores and back edges
+    reach = b.reachable_from([h], cut_edges=be, cut_blocks=frozenset(sets))
+    skipped = [u for u in latches if u in reach]
+    if skipped:
+        ck.violation(rule, inst, b.path, b.where(skipped[0]), expected="every iteration of the cell loop stores 1 or 0 into its cell",
+                     found="an iteration can reach the loop latch without a store: some cells keep their old value (e.g. zeros under a negative threshold)")
+    else:
+        ck.ok(rule, inst, b.path, b.where(h), f"{len(sets)} store(s); every path of an iteration passes one")
+
+
+def run(ck, prog):
+    _run_pre_binarize(ck, prog)
+    binarize_every_cell(ck, prog)
+
+
+EXPLANATION += (' binarize_mut stores into every cell (no path of an iteration skips the store).')
